@@ -163,6 +163,11 @@ func vKeywords() (n int, fails []string) {
 //@ bounded vKeywords GetHtmlMetadata on <meta name=keywords> for every content string up to length 5 over two letters, the comma, space, tab, U+00A0, U+3000, U+000B and U+0085, against the HTML definition (only the five HTML space characters are stripped)
 //@   props C14
 
+// x modulo i for floats (as Python's %): a function of its arguments, in [0, i) for a positive i
+//@ func FloatModulo
+//@   props C14
+//@   pure
+//@   trusted "math.Floor and the integer modulo are library / machine operations: assumed a total function of the arguments without side effects"
 //@ func MinF
 //@   props C18
 //@   nopanic
